@@ -774,7 +774,9 @@ def unchecked_ops_lemmas_for_width(mir, fns, wb, out, tier):
         ctx.ops = {0: mn, 1: mx}
         w = bv(wb)
         shift = ctx.opword(2 if scan else 1)
-        pre = pre + ["(and (bvsge %s %s) (bvsle %s %s))" % (shift, bv(-B), shift, bv(B))]
+        # the sign for which the interpreter's code generator selects this op
+        left = name.endswith("l")
+        pre = pre + [("(and (bvslt %s %s) (bvsge %s %s))" % (shift, bv(0), shift, bv(-B))) if left else ("(and (bvsge %s %s) (bvsle %s %s))" % (shift, bv(0), shift, bv(B)))]
         cond = None
         if scan:
             cond = ctx.opword(1)
